@@ -107,7 +107,7 @@ func runWireHistoryOnce(args []string) []string {
 			ip, ok := ParseIP4(op[1])
 			sport, err := strconv.Atoi(op[2])
 			payload, err2 := core.UnHex(op[3])
-			if !ok || ip[0] != 127 || err != nil || err2 != nil || sport < 1 || sport > 65535 || len(payload) == 0 {
+			if !ok || ip[0] != 127 || err != nil || err2 != nil || sport < 1 || sport > 65535 { // an empty payload ("-") is sent as an empty datagram
 				return []string{"bad-op"}
 			}
 			key := op[1] + ":" + op[2]
